@@ -152,3 +152,244 @@ def rename_locals(sources: SourceSet) -> SourceSet:
 
 
 VARIANTS = {"reformat": reformat, "rename-locals": rename_locals}
+
+
+# ------------------------------------------------------------------ more whole-package variants
+
+
+class _InvertIfs(ast.NodeTransformer):
+    """``if c: A else: B``  ->  ``if not c: B else: A`` (only two-armed ifs whose else is not an elif chain)."""
+
+    def visit_If(self, node):
+        self.generic_visit(node)
+        if node.orelse and not (len(node.orelse) == 1 and isinstance(node.orelse[0], ast.If)):
+            test = node.test.operand if isinstance(node.test, ast.UnaryOp) and isinstance(node.test.op, ast.Not) else ast.UnaryOp(op=ast.Not(), operand=node.test)
+            return ast.copy_location(ast.If(test=test, body=node.orelse, orelse=node.body), node)
+        return node
+
+
+def invert_ifs(sources: SourceSet) -> SourceSet:
+    out = {}
+    for rel, text in sources.files.items():
+        tree = _InvertIfs().visit(ast.parse(text))
+        ast.fix_missing_locations(tree)
+        out[rel] = ast.unparse(tree) + "\n"
+    return SourceSet(out, sources.root)
+
+
+class _SplitWalrus(ast.NodeTransformer):
+    """``if (x := e) <op> ...:``  ->  ``x = e`` ; ``if x <op> ...:`` when the walrus is evaluated first in the test."""
+
+    def _first_walrus(self, test: ast.expr):
+        # the walrus must be the left-most evaluated sub-expression
+        node = test
+        while True:
+            if isinstance(node, ast.NamedExpr):
+                return node
+            if isinstance(node, ast.Compare):
+                node = node.left
+            elif isinstance(node, ast.BoolOp):
+                node = node.values[0]
+            elif isinstance(node, ast.UnaryOp):
+                node = node.operand
+            elif isinstance(node, ast.Attribute):
+                node = node.value
+            else:
+                return None
+
+    def _block(self, stmts):
+        out = []
+        for s in stmts:
+            if isinstance(s, ast.If):
+                w = self._first_walrus(s.test)
+                if w is not None and isinstance(w.target, ast.Name):
+                    assign = ast.copy_location(ast.Assign(targets=[ast.Name(w.target.id, ast.Store())], value=w.value), s)
+
+                    class R(ast.NodeTransformer):
+                        def visit_NamedExpr(self, n):  # noqa: N802
+                            return ast.Name(n.target.id, ast.Load()) if n is w else n
+
+                    s.test = R().visit(s.test)
+                    out.append(assign)
+            out.append(s)
+        return out
+
+    def generic_visit(self, node):
+        super().generic_visit(node)
+        for field in ("body", "orelse"):
+            v = getattr(node, field, None)
+            if isinstance(v, list) and v and isinstance(v[0], ast.stmt):
+                setattr(node, field, self._block(v))
+        if isinstance(node, ast.Match):
+            for c in node.cases:
+                c.body = self._block(c.body)
+        return node
+
+
+def split_walrus(sources: SourceSet) -> SourceSet:
+    out = {}
+    for rel, text in sources.files.items():
+        tree = _SplitWalrus().visit(ast.parse(text))
+        ast.fix_missing_locations(tree)
+        out[rel] = ast.unparse(tree) + "\n"
+    return SourceSet(out, sources.root)
+
+
+class _MatchToIsinstance(ast.NodeTransformer):
+    """``match x: case A(): .. case B() | C(): .. case _: ..`` with capture-free class patterns -> isinstance chain."""
+
+    def _class_exprs(self, p: ast.pattern):
+        if isinstance(p, ast.MatchClass) and not p.patterns and not p.kwd_patterns:
+            return [p.cls]
+        if isinstance(p, ast.MatchOr):
+            out = []
+            for x in p.patterns:
+                r = self._class_exprs(x)
+                if r is None:
+                    return None
+                out.extend(r)
+            return out
+        return None
+
+    def visit_Match(self, node):
+        self.generic_visit(node)
+        subj = node.subject
+        s = subj
+        while isinstance(s, ast.Attribute):
+            s = s.value
+        if not isinstance(s, ast.Name):
+            return node
+        arms = []
+        default = None
+        for c in node.cases:
+            if isinstance(c.pattern, ast.MatchAs) and c.pattern.pattern is None and c.pattern.name is None and c.guard is None:
+                default = c.body
+                break
+            ce = self._class_exprs(c.pattern)
+            if ce is None:
+                return node
+            test: ast.expr = ast.Call(func=ast.Name("isinstance", ast.Load()), args=[subj, ce[0] if len(ce) == 1 else ast.Tuple(elts=ce, ctx=ast.Load())], keywords=[])
+            if c.guard is not None:
+                test = ast.BoolOp(op=ast.And(), values=[test, c.guard])
+            arms.append((test, c.body))
+        if not arms:
+            return node
+        orelse = default or []
+        for test, body in reversed(arms):
+            orelse = [ast.If(test=test, body=body, orelse=orelse)]
+        return ast.copy_location(orelse[0], node)
+
+
+def match_to_isinstance(sources: SourceSet) -> SourceSet:
+    out = {}
+    for rel, text in sources.files.items():
+        tree = _MatchToIsinstance().visit(ast.parse(text))
+        ast.fix_missing_locations(tree)
+        out[rel] = ast.unparse(tree) + "\n"
+    return SourceSet(out, sources.root)
+
+
+VARIANTS.update({"invert-ifs": invert_ifs, "split-walrus": split_walrus, "match-to-isinstance": match_to_isinstance})
+
+
+class _DropElseAfterReturn(ast.NodeTransformer):
+    """``if c: ...return/raise`` + ``else: B``  ->  ``if c: ...`` followed by B (guard-clause style)."""
+
+    def _closed(self, stmts):
+        if not stmts:
+            return False
+        last = stmts[-1]
+        if isinstance(last, (ast.Return, ast.Raise)):
+            return True
+        if isinstance(last, ast.If):
+            return bool(last.orelse) and self._closed(last.body) and self._closed(last.orelse)
+        return False
+
+    def _block(self, stmts):
+        out = []
+        for s in stmts:
+            if isinstance(s, ast.If) and s.orelse and self._closed(s.body):
+                rest = s.orelse
+                s.orelse = []
+                out.append(s)
+                out.extend(rest)
+            else:
+                out.append(s)
+        return out
+
+    def generic_visit(self, node):
+        super().generic_visit(node)
+        for field in ("body", "orelse"):
+            v = getattr(node, field, None)
+            if isinstance(v, list) and v and isinstance(v[0], ast.stmt):
+                setattr(node, field, self._block(v))
+        if isinstance(node, ast.Match):
+            for c in node.cases:
+                c.body = self._block(c.body)
+        return node
+
+
+def guard_clauses(sources: SourceSet) -> SourceSet:
+    out = {}
+    for rel, text in sources.files.items():
+        tree = _DropElseAfterReturn().visit(ast.parse(text))
+        ast.fix_missing_locations(tree)
+        out[rel] = ast.unparse(tree) + "\n"
+    return SourceSet(out, sources.root)
+
+
+class _SplitAnd(ast.NodeTransformer):
+    """``if a and b: X`` (no else)  ->  ``if a:`` ``if b: X``."""
+
+    def visit_If(self, node):
+        self.generic_visit(node)
+        if not node.orelse and isinstance(node.test, ast.BoolOp) and isinstance(node.test.op, ast.And) and len(node.test.values) == 2:
+            inner = ast.If(test=node.test.values[1], body=node.body, orelse=[])
+            return ast.copy_location(ast.If(test=node.test.values[0], body=[inner], orelse=[]), node)
+        return node
+
+
+def split_and(sources: SourceSet) -> SourceSet:
+    out = {}
+    for rel, text in sources.files.items():
+        tree = _SplitAnd().visit(ast.parse(text))
+        ast.fix_missing_locations(tree)
+        out[rel] = ast.unparse(tree) + "\n"
+    return SourceSet(out, sources.root)
+
+
+class _ReturnTemp(ast.NodeTransformer):
+    """``return <call or other compound expression>``  ->  ``_result = <expr>`` ; ``return _result``."""
+
+    def _block(self, stmts):
+        out = []
+        for s in stmts:
+            if isinstance(s, ast.Return) and isinstance(s.value, (ast.Call, ast.BinOp, ast.Tuple, ast.BoolOp, ast.Compare)) and not any(isinstance(n, (ast.Yield, ast.YieldFrom)) for n in ast.walk(s)):
+                out.append(ast.copy_location(ast.Assign(targets=[ast.Name("result_tmp", ast.Store())], value=s.value), s))
+                out.append(ast.copy_location(ast.Return(value=ast.Name("result_tmp", ast.Load())), s))
+            else:
+                out.append(s)
+        return out
+
+    def generic_visit(self, node):
+        super().generic_visit(node)
+        for field in ("body", "orelse"):
+            v = getattr(node, field, None)
+            if isinstance(v, list) and v and isinstance(v[0], ast.stmt) and not isinstance(node, (ast.Module, ast.ClassDef)):
+                setattr(node, field, self._block(v))
+        if isinstance(node, ast.Match):
+            for c in node.cases:
+                c.body = self._block(c.body)
+        return node
+
+
+def return_temp(sources: SourceSet) -> SourceSet:
+    out = {}
+    for rel, text in sources.files.items():
+        tree = _ReturnTemp().visit(ast.parse(text))
+        ast.fix_missing_locations(tree)
+        out[rel] = ast.unparse(tree) + "\n"
+    return SourceSet(out, sources.root)
+
+
+VARIANTS.update({"guard-clauses": guard_clauses, "split-and": split_and, "return-temp": return_temp})
